@@ -31,13 +31,19 @@
 
    Locked = TRUE is the code (and what the property needs); Locked = FALSE drops the mutex and
    is refuted by TLC (anti-vacuity).  Unique = FALSE drops the uniqueness loop (refuted too).
+   SplitGet = TRUE is the read-then-write-lock variant of get(): the key is looked up in one
+   critical section (shared lock) and, on a miss, the lock is released and re-acquired
+   (exclusive) for generate + insert WITHOUT looking the key up again; two callers racing on
+   one fresh key then get two addresses, the key's address changes after it was handed out and
+   the stale address stays in the reverse map.  Refuted by TLC (ReturnedInjective, Stable).
 
    The second half (`Classify`) is `MultipathMappedAddr::from(SocketAddr)` as a decision table
    over abstract addresses; see the CLASSIFY section. *)
 EXTENDS Naturals, Sequences, FiniteSets, TLC, Json
 CONSTANTS Threads, Kinds, Keys, Hosts, NoHost, NoKey, NoThread,
           MaxCalls,       \* calls per thread (model checking bound)
-          Locked, Unique
+          Locked, Unique,
+          SplitGet        \* FALSE: the code; TRUE: what-if "miss check and insert in two critical sections"
 VARIABLES fwd, rev, lock, pc, op, cand, ret, ncalls,
           rets            \* ghost: every <<kind, key, host>> some get() has returned
 vars == <<fwd, rev, lock, pc, op, cand, ret, ncalls, rets>>
@@ -65,11 +71,14 @@ CallLookup(t, kind, host) ==
   /\ pc' = [pc EXCEPT ![t] = "acquire"] /\ ncalls' = [ncalls EXCEPT ![t] = @ + 1]
   /\ UNCHANGED <<fwd, rev, lock, cand, ret, rets>>
 
+\* pc "acquire2" (SplitGet only): the exclusive lock of the second critical section, straight into
+\* generate - `addrs` is not consulted again
 Acquire(t) ==
-  /\ pc[t] = "acquire"
+  /\ pc[t] \in {"acquire", "acquire2"}
   /\ IF Locked THEN lock[op[t].kind] = NoThread /\ lock' = [lock EXCEPT ![op[t].kind] = t]
                ELSE UNCHANGED lock
-  /\ pc' = [pc EXCEPT ![t] = IF op[t].name = "get" THEN "getlookup" ELSE "revlookup"]
+  /\ pc' = [pc EXCEPT ![t] = IF pc[t] = "acquire2" THEN "generate"
+                             ELSE IF op[t].name = "get" THEN "getlookup" ELSE "revlookup"]
   /\ UNCHANGED <<fwd, rev, op, cand, ret, ncalls, rets>>
 
 GetLookup(t) ==
@@ -77,8 +86,10 @@ GetLookup(t) ==
   /\ LET h == fwd[op[t].kind][op[t].key] IN
        IF h # NoHost THEN /\ ret' = [ret EXCEPT ![t] = [host |-> h, key |-> NoKey]]
                           /\ pc' = [pc EXCEPT ![t] = "release"]
-                     ELSE /\ pc' = [pc EXCEPT ![t] = "generate"] /\ UNCHANGED ret
-  /\ UNCHANGED <<fwd, rev, lock, op, cand, ncalls, rets>>
+                     ELSE /\ pc' = [pc EXCEPT ![t] = IF SplitGet THEN "acquire2" ELSE "generate"] /\ UNCHANGED ret
+  \* SplitGet: the miss ends the first (shared) critical section
+  /\ lock' = IF SplitGet /\ Locked /\ fwd[op[t].kind][op[t].key] = NoHost THEN [lock EXCEPT ![op[t].kind] = NoThread] ELSE lock
+  /\ UNCHANGED <<fwd, rev, op, cand, ncalls, rets>>
 
 \* one iteration of `loop { candidate = V::generate(); if !lookup.contains_key(&candidate) { break } }`
 GetGenerate(t, h) ==
@@ -134,7 +145,7 @@ Spec == Init /\ [][Next]_vars
 ---------------------------------------------------------------------------
 (* C18, concurrency half *)
 \* whenever nobody is inside a map, addrs and lookup are mutually inverse
-Bijection == \A k \in Kinds : lock[k] = NoThread /\ (\A t \in Threads : op[t].kind = k => pc[t] \in {"idle", "acquire", "return"}) =>
+Bijection == \A k \in Kinds : lock[k] = NoThread /\ (\A t \in Threads : op[t].kind = k => pc[t] \in {"idle", "acquire", "acquire2", "return"}) =>
                /\ \A key \in Keys : fwd[k][key] # NoHost => rev[k][fwd[k][key]] = key
                /\ \A h \in Hosts : rev[k][h] # NoKey => fwd[k][rev[k][h]] = h
 \* an entry is never overwritten (the synthetic address of a key never changes, is never re-assigned)
